@@ -210,8 +210,8 @@ def equal_case(secret, v1, v2):
     return None
 
 
-def read_wsgi(om, pair, name, secret):
-    app = om.Ombott()
+def read_wsgi(om, pair, name, secret, debug=False):
+    app = om.Ombott({'debug': True}) if debug else om.Ombott()
     seen = {}
 
     def h():
@@ -414,6 +414,22 @@ def work(spec):
                 unp = proxy.loads_calls - b
                 ok = g == MISSING and unp == 0
                 res['outcomes'].add('tampered ' + ('absent' if ok else 'ACCEPTED' if g != MISSING else 'UNPICKLED'))
+                if ok and c['tampered'] % 4 == 0:
+                    # ... and to an application running in debug mode (through WSGI, wsgi.errors present)
+                    b = proxy.loads_calls
+                    proxy.armed = True
+                    try:
+                        gd = read_wsgi(om, hdr, name, sec, debug=True)
+                    except Exception as e:   # noqa
+                        gd = f'<<raised {type(e).__name__}: {e}>>'
+                    finally:
+                        proxy.armed = False
+                    c['tampered_debug_app'] += 1
+                    if gd != MISSING or proxy.loads_calls != b:
+                        core.add_violation(res, dict(case0, edit=what, header=hdr, secret=sec, debug_app=True),
+                                           f'{what} of the signed cookie ({value!r}, secret {secret!r}) sent as {hdr!r} to an application with debug=True: read {gd!r}, '
+                                           f'unpickler reached {proxy.loads_calls - b} time(s)', sig='forged:debug-app')
+                        return
                 if ok:
                     # the same forgery presented to a Request object that has just read the genuine cookie
                     b = proxy.loads_calls
@@ -585,6 +601,16 @@ def replay(case):
         if not err:
             read_wsgi(om, pair, name, secret)
         proxy.loads_calls = 0
+        if case.get('debug_app'):
+            proxy.armed = True
+            try:
+                gd = read_wsgi(om, case['header'], name, case['secret'], debug=True)
+            except Exception as e:   # noqa
+                gd = f'<<raised {type(e).__name__}: {e}>>'
+            if gd == MISSING and proxy.loads_calls == 0:
+                return None
+            return (f'application with debug=True: the forged cookie {case["header"]!r} ({case["edit"]} of the genuine one) read with secret {case["secret"]!r}: get_cookie gives {gd!r}, '
+                    f'the unpickler was reached {proxy.loads_calls} time(s)')
         if case.get('reused'):
             proxy.armed = True
             try:
